@@ -8,6 +8,12 @@ mod iceberg;
 mod http;
 mod sqlrun;
 mod splits;
+mod dist_fault;
+mod cache;
+mod prune;
+mod compiled;
+mod pqstats;
+mod node;
 
 fn main() {
     let args: Vec<String> = std::env::args().collect();
@@ -32,6 +38,17 @@ fn main() {
         "member-record" => member::record(rest),
         "pool-replay" => pool::replay(rest),
         "pool-stress" => pool::stress(rest),
+        "prune-replay" => prune::replay(rest),
+        "compiled-replay" => compiled::replay(rest),
+        "pqstats-replay" => pqstats::replay(rest),
+        "cache-replay" => cache::replay(rest),
+        "cache-build" => cache::build(rest),
+        "cache-query" => cache::query(rest),
+        "dist-topo" => dist_fault::topo(rest),
+        "dist-replay" => dist_fault::replay(rest),
+        "dist-http" => dist_fault::http(rest),
+        "node-replay" => node::replay(rest),
+        "node-classify" => node::classify(rest),
         other => {
             eprintln!("unknown subcommand {other}");
             2
